@@ -6,6 +6,7 @@ is executed; the oracle is the statement, literally.  Invalid ports and wrong ar
 from __future__ import annotations
 
 import itertools
+import pickle
 
 from vlib import impl
 from vlib.acc import Acc
@@ -29,7 +30,7 @@ PORTS = [None, 0, 1, 20, 21, 22, 79, 80, 81, 442, 443, 444, 8080, 65534, 65535, 
 HOSTS = [("h.com", "h.com", "h.com"), ("127.0.0.1", "127.0.0.1", "127.0.0.1"), ("[::1]", "::1", "[::1]"),
          ("xn--9ca.com", "é.com", "xn--9ca.com"), ("[fe80::1%eth0]", "fe80::1%eth0", "[fe80::1%eth0]"), ("h.com.", "h.com.", "h.com.")]
 USERINFO = [("", None, None), ("u@", "u", None), ("u:p@", "u", "p"), (":p@", None, "p"), ("u:@", "u", "")]
-ROUTES = ["ctor", "build_hp", "build_auth", "with_port", "with_port_replace"]
+ROUTES = ["ctor", "build_hp", "build_auth", "with_port", "with_port_replace", "rescheme_observed"]
 
 
 def make(route, scheme, ui, host, port):
@@ -47,6 +48,22 @@ def make(route, scheme, ui, host, port):
         return U(pre + uitext + written + "/p?q#f").with_port(port)
     if route == "with_port_replace":
         return U(pre + uitext + written + ":7/p?q#f").with_port(port)
+    if route == "rescheme_observed":
+        # the same authority first lives under another scheme (with another default port), every accessor is read there, and
+        # only then the URL moves to `scheme`: nothing computed under the old scheme may survive
+        from vlib.observe import observe
+        out = None
+        for old in ("https", "http", "x"):
+            if old == scheme.lower() or not scheme:
+                continue
+            w = pickle.loads(pickle.dumps(U(old + "://" + uitext + written + ("" if port is None else ":%d" % port) + "/p?q#f")))
+            observe(w)
+            out = w.with_scheme(scheme)
+            if old != "x":
+                break
+        if out is None:
+            raise LookupError("not applicable")
+        return out
     raise KeyError(route)
 
 
@@ -58,6 +75,9 @@ def case_port(acc, route, scheme, ui, host, port):
     dflt = DEFAULT.get(sc)
     try:
         u = make(route, scheme, ui, host, port)
+    except LookupError:
+        acc.evals -= 1
+        return None
     except Exception as e:  # noqa: BLE001
         acc.viol("port", (route, scheme, ui, host, port), observed=repr(e), expected="a URL",
                  msg="%s(scheme=%r, host=%r, port=%r) raised %r" % (route, scheme, host[0], port, e))
